@@ -1173,6 +1173,21 @@ pub fn scenarios(thorough: bool) -> Vec<BScenario> {
             BCaller { erased: false, ctx: Ctx::Async, ops: vec![BOp::Wait(1000), BOp::OpenGate(0)] },
         ],
     });
+    // S24: bounded calls made from inside a runtime (a worker of a multi-thread runtime, the thread of a current-thread
+    // one) when the actor has already ended (its mailbox is closed at the time of the call)
+    for end in [BOp::Stop, BOp::Kill] {
+        v.push(BScenario {
+            name: format!("b24-bounded-calls-to-an-ended-actor-{end:?}"),
+            cap: 2,
+            gates: 0,
+            pool: None,
+            callers: vec![
+                BCaller { erased: false, ctx: Ctx::InAsync, ops: vec![t(1, None, Some(300)), a(2, None, Some(300))] },
+                BCaller { erased: false, ctx: Ctx::InCurrentThread, ops: vec![a(3, None, Some(300)), t(4, None, Some(300))] },
+                BCaller { erased: false, ctx: Ctx::Async, ops: vec![end.clone(), BOp::Wait(150)] },
+            ],
+        });
+    }
     // S6: unusual timeout values
     v.push(BScenario {
         name: "b6-extreme-timeouts".into(),
